@@ -165,7 +165,7 @@ class Gauleg(Entry):
     """esutil.integrate.gauleg(x1, x2, npts)"""
     name = "gauleg"
     shard = 10
-    shard_quick = 30
+    shard_quick = 20
     mode = "light"       # light | moments | large
     use_mp = False
 
@@ -180,20 +180,22 @@ class Gauleg(Entry):
                     cs.append({"a": hx(-1.0), "b": hx(1.0), "n": n, "mom": 2 * n if n <= 12 else 0, "family": "unit 1..%d" % nmax})
                 for n in (0, -1, -7):
                     cs.append({"a": hx(-1.0), "b": hx(1.0), "n": n, "mom": 0, "family": "rejected npts<=0"})
-                for n in ([1, 2, 3, 4, 5, 8, 13, 21, 40] if q else [1, 2, 3, 4, 5, 7, 8, 16, 31, 64, 100, 127, 200]):
+                for n in ([1, 2, 3, 5, 8, 21, 40] if q else [1, 2, 3, 4, 5, 7, 8, 16, 31, 64, 100, 127, 200]):
                     for a, b, kind in [(0.0, 1.0, "plain"), (3.5, -2.25, "rev"), (-7.0, -3.0, "neg"), (1e-5, 3e-5, "tiny"),
                                        (2e-250, 7e-250, "tiny"), (-4e200, 9e200, "huge"), (1e12, -1e12, "rev")]:
                         cs.append({"a": hx(a), "b": hx(b), "n": n, "mom": 0, "family": "interval:" + kind})
-            for a, b, kind in intervals(r, ctx.n(60, 500) if round == 0 else 40):
+            for a, b, kind in intervals(r, ctx.n(45, 500) if round == 0 else 40):
                 n = r.choice([r.randrange(1, 12), r.randrange(1, 61), r.randrange(1, 61 if q else 201)])
                 cs.append({"a": hx(a), "b": hx(b), "n": n, "mom": 0, "family": "interval:" + kind})
         elif self.mode == "moments":
             if round == 0:
                 nmax = 30 if q else 64
                 ns = list(range(nmax, 12, -1))
-                if q:   # interleave so that the shards of 3 are balanced (large, middle, small n)
-                    k = (len(ns) + 2) // 3
-                    ns = [ns[i + j * k] for i in range(k) for j in range(3) if i + j * k < len(ns)]
+                if q:   # quick: every other n (all n <= 12 are certified by the light entry; thorough: all);
+                    #       paired large/small so that the shards of 2 are balanced
+                    ns = [n for n in ns if n % 2 == 0 or n == 29]
+                    k = (len(ns) + 1) // 2
+                    ns = [ns[i + j * k] for i in range(k) for j in range(2) if i + j * k < len(ns)]
                 for n in ns:
                     cs.append({"a": hx(-1.0), "b": hx(1.0), "n": n, "mom": 2 * n, "family": "moments 13..%d" % nmax})
         else:
@@ -234,7 +236,7 @@ class Gauleg(Entry):
 class GaulegMoments(Gauleg):
     name = "gauleg_moments"
     shard = 1
-    shard_quick = 3
+    shard_quick = 2
     mode = "moments"
 
 
@@ -285,12 +287,14 @@ class Poly(Entry):
     """exactness of the rule gauleg(a,b,n) on random polynomials of degree <= 2n-1, n <= 30"""
     name = "poly"
     shard = 6
-    shard_quick = 16
+    shard_quick = 7
 
     def cases(self, ctx, round=0):
         r = ctx.rng
         cs = []
         ns = list(range(1, 31)) if round == 0 else [r.randrange(1, 31) for _ in range(10)]
+        if round == 0 and ctx.quick():
+            ns = [n for n in ns if n <= 10 or n % 2 == 0 or n == 29]
         per = ctx.n(2, 8)
         for n in ns:
             for j in range(per):
@@ -410,13 +414,13 @@ class Func(Entry):
     """QGauss(npts).integrate([x1,x2], func), integrate(..., npts=), integrate_func, qgauss"""
     name = "integrate_func"
     shard = 10
-    shard_quick = 24
+    shard_quick = 14
 
     def cases(self, ctx, round=0):
         r = ctx.rng
         cs = []
         names = sorted(_funcs())
-        for a, b, kind in mild_intervals(r, ctx.n(70, 600) if round == 0 else 40):
+        for a, b, kind in mild_intervals(r, ctx.n(55, 600) if round == 0 else 40):
             n = r.choice([r.randrange(1, 10), r.randrange(1, 41), r.randrange(1, 61 if ctx.quick() else 201),
                           r.choice([7, 8, 9, 127, 128, 129, 130, 136, 137] if not ctx.quick() else [7, 8, 9, 15, 16, 17])])
             cs.append({"x1": hx(a), "x2": hx(b), "n": n, "fn": r.choice(names),
@@ -465,12 +469,12 @@ class Data(Entry):
     """QGauss(npts).integrate(xvals, yvals) on tabulated data (linear interpolation), qgauss"""
     name = "integrate_data"
     shard = 8
-    shard_quick = 20
+    shard_quick = 8
 
     def cases(self, ctx, round=0):
         r = ctx.rng
         cs = []
-        for _ in range(ctx.n(60, 500) if round == 0 else 30):
+        for _ in range(ctx.n(48, 500) if round == 0 else 30):
             npt = r.choice([2, 3, r.randrange(2, 12), r.randrange(2, 60)])
             spacing = r.choice(["even", "uneven", "clustered", "negative"])
             x0 = r.uniform(-10, 10)
@@ -537,7 +541,7 @@ class Func2(Entry):
     """QGauss2(nx, ny).integrate_func(xrng, yrng, func)"""
     name = "qgauss2"
     shard = 8
-    shard_quick = 20
+    shard_quick = 9
 
     def cases(self, ctx, round=0):
         r = ctx.rng
@@ -547,7 +551,7 @@ class Func2(Entry):
         shapes = []
         if round == 0:
             shapes += [(1, 1), (1, 3), (4, 1), (3, 4), (4, 3), (2, 2), (5, 5), (7, 2), (2, 9), (8, 16)]
-        for _ in range(ctx.n(40, 300) if round == 0 else 30):
+        for _ in range(ctx.n(30, 300) if round == 0 else 30):
             shapes.append((r.randrange(1, nmax + 1), r.randrange(1, nmax + 1)))
         for nx, ny in shapes:
             (a, b, k1), (c_, d, k2) = mild_intervals(r, 2)
@@ -720,7 +724,7 @@ def differential_sharded(ctx, preamble, entries, replay_case=None):
         r = eval_terms(ctx, preamble, ent, cases, outs, terms, "d_" + ent.name)
         return r, round(time.time() - t0, 1)
 
-    with ThreadPoolExecutor(4) as ex:
+    with ThreadPoolExecutor(6) as ex:
         evaluated = list(ex.map(evaluate, prepared))
 
     for (ent, cases, outs, terms), ((res, err), wall) in zip(prepared, evaluated):
